@@ -207,8 +207,11 @@ PLANTS = ["expr", "expr-gettext", "expr-multiline", "expr-two", "filter-arg", "f
 DECOYS = ["text", "text-tag", "doc", "comment", "escaped-percent"]
 
 
-def build(r, nl, enc):
+def build(r, nl, enc, magic=False):
     d = Doc(nl)
+    if magic:
+        # the source encoding is declared by the template itself (first-line magic comment), not by an option
+        d.add("## -*- coding: %s -*-" % enc + nl)
     if r.random() < 0.3:
         plant(d, r, "page-args", enc)
         d.has_page = True
@@ -285,7 +288,10 @@ def compare(found, d, which, res, rc, text):
 
 
 def run_template(r, nl, enc, res):
-    d = build(r, nl, enc)
+    magic = enc in ("latin-1", "cp1251") and r.random() < 0.35
+    d = build(r, nl, enc, magic)
+    if magic:
+        res.count("templates_declaring_their_encoding")
     text = "".join(d.parts)
     rc = {"kind": "one", "text": text, "enc": enc, "expected": d.expected}
     res.evaluations += 1
@@ -298,15 +304,19 @@ def run_template(r, nl, enc, res):
     # Babel
     try:
         data = text.encode(codec)
-        found = list(_st["babel"].extract(io.BytesIO(data), ["_", "gettext", "ngettext"], ["TRANSLATORS:"], {"encoding": codec}))
+        found = list(_st["babel"].extract(io.BytesIO(data), ["_", "gettext", "ngettext"], ["TRANSLATORS:"], {} if magic else {"encoding": codec}))
         res.count("babel_templates")
         compare(found, d, "babel", res, rc, text)
     except Exception as e:
         res.violate("babel-raises", "Babel extractor raised %s: %s on\n%s" % (type(e).__name__, e, text), replay_case=rc)
     # Lingua
     try:
-        ext = _st["lingua"].LinguaMakoExtractor({"comment-tags": "TRANSLATORS:", "encoding": codec})
-        msgs = list(ext("t.mako", _Opts(), io.StringIO(text)))
+        if magic:
+            ext = _st["lingua"].LinguaMakoExtractor({"comment-tags": "TRANSLATORS:", "encoding": "utf-8"})  # Lingua's default
+            msgs = list(ext("t.mako", _Opts(), io.BytesIO(text.encode(codec))))
+        else:
+            ext = _st["lingua"].LinguaMakoExtractor({"comment-tags": "TRANSLATORS:", "encoding": codec})
+            msgs = list(ext("t.mako", _Opts(), io.StringIO(text)))
         found = []
         for m in msgs:
             mm = (m.msgid, m.msgid_plural) if m.msgid_plural else m.msgid
